@@ -146,6 +146,6 @@ namespace hs
         std::size_t      fill_checks_ = 0;
         unsigned         moves_done_ = 0, last_calls_ = 0;
         int              next_owner_ = 0;
-        bool             in_destroy_ = false, expect_overflow_ = false;
+        bool             in_destroy_ = false, expect_overflow_ = false, in_over_ = false;
     };
 } // namespace hs
